@@ -3,6 +3,9 @@ package main
 import (
 	"fmt"
 	"math/big"
+	"os"
+	"path/filepath"
+	"sort"
 	"strings"
 	"time"
 )
@@ -87,7 +90,7 @@ func runC03(c *Ctx) {
 	n := c.N(3000, 40000)
 	dir := c.WorkDir
 	_ = dir
-	cases := genBalCasesWith(c, "valued", n, func(r *RNG) JGenOpts {
+	cases := c03GenBalCases(c, "valued", n, func(r *RNG) JGenOpts {
 		return JGenOpts{MaxAccounts: r.Range(2, 6), MaxDays: r.Range(2, 9), BaseDay: 737000 + r.Intn(1500), SpanDays: Pick(r, []int{5, 40, 100, 400}),
 			Prices: true, Valuation: Pick(r, []string{"CHF", "USD"}), ManyDecimals: r.Chance(1, 3), DropPrices: r.Chance(1, 8), ChainPrices: r.Chance(1, 3), DupPrices: true}
 	}, func(r *RNG, j *Journal, val string) BalFlags {
@@ -380,7 +383,7 @@ func c03ClosingMonitor(c *Ctx, bt *Batch, bc *balCase, in any, dates, ds []strin
 // Spec.stepCountOver units of 1e-8, no slack).
 func c03Modes(c *Ctx, bt *Batch) {
 	n := c.N(1500, 20000)
-	cases := genBalCasesWith(c, "modes", n, func(r *RNG) JGenOpts {
+	cases := c03GenBalCases(c, "modes", n, func(r *RNG) JGenOpts {
 		return JGenOpts{MaxAccounts: r.Range(2, 7), MaxDays: r.Range(2, 9), BaseDay: 737000 + r.Intn(1500), SpanDays: Pick(r, []int{5, 40, 100, 400}),
 			Prices: true, Valuation: Pick(r, []string{"CHF", "USD"}), ManyDecimals: r.Chance(1, 3), DropPrices: r.Chance(1, 12), ChainPrices: r.Chance(1, 3), DupPrices: true}
 	}, func(r *RNG, j *Journal, val string) BalFlags {
@@ -610,4 +613,207 @@ func c03ALMonitor(c *Ctx, bt *Batch, stream string, idx int, in any, f0 BalFlags
 		}
 	}, "c03mtm", f0.Val, j.Wire(), itoa(start-1), strings.Join(ds, ","))
 	return dates, ds, rows, start, true
+}
+
+// c03Requote adds a QUOTE HISTORY to a generated journal (seeded change C03-k remembered the last value written per
+// DIRECTED pair and dropped a declaration that repeated it, although a declaration sets both directions): 1-3 unordered
+// pairs of the journal's commodities (a held commodity and the valuation commodity, a pair the journal already declares,
+// or two other commodities = a link of a chain), each quoted 3-9 times in BOTH directions, the values of either direction
+// drawn from a pool of one or two values (exact repeats are frequent: A p B, B q A, A p B; a value also re-written with
+// another number of trailing zeros; the inverse direction holding the exact reciprocal or another rate), on the journal's
+// own days and on days in between / after the last one, several quotes of one pair on one day (file order decides).
+// The declarations are inserted in date order among the price declarations of their day. val may be "".
+func c03Requote(r *RNG, j *Journal, val string) []string {
+	var tags []string
+	seenDay := map[int]bool{}
+	var days []int
+	held := map[string]bool{}
+	var coms []string
+	addCom := func(c string) {
+		if c != "" && !held[c] {
+			held[c] = true
+			coms = append(coms, c)
+		}
+	}
+	type pair struct{ a, b string }
+	var cands []pair
+	for _, d := range j.Dirs {
+		if !seenDay[d.Date] {
+			seenDay[d.Date] = true
+			days = append(days, d.Date)
+		}
+		switch d.Kind {
+		case 't':
+			for _, b := range d.Bookings {
+				addCom(b.Com)
+			}
+		case 'p':
+			cands = append(cands, pair{d.Com, d.Target})
+		}
+	}
+	if len(days) == 0 {
+		return nil
+	}
+	sort.Ints(days)
+	lo, hi := days[0], days[len(days)-1]
+	for _, c := range coms {
+		if val != "" && c != val {
+			cands = append(cands, pair{c, val}, pair{c, val})
+			if o := Pick(r, coms); o != c && o != val {
+				cands = append(cands, pair{c, o}) // a link of a chain
+			}
+		}
+	}
+	if len(cands) == 0 {
+		return nil
+	}
+	rates := []string{"1.25", "0.8", "0.5", "2", "1.6", "0.625", "4", "0.25", "3", "1.1", "97.53", "0.07"}
+	recip := map[string]string{"1.25": "0.8", "0.8": "1.25", "0.5": "2", "2": "0.5", "1.6": "0.625", "0.625": "1.6", "4": "0.25", "0.25": "4"}
+	insert := func(d JDir) {
+		from := sort.Search(len(j.Dirs), func(k int) bool { return j.Dirs[k].Date >= d.Date })
+		to := from
+		for to < len(j.Dirs) && j.Dirs[to].Date == d.Date && j.Dirs[to].Kind == 'p' {
+			to++
+		}
+		at := from + r.Intn(to-from+1)
+		if r.Chance(1, 2) {
+			at = to // the newest declaration of the day last
+		}
+		j.Dirs = append(j.Dirs, JDir{})
+		copy(j.Dirs[at+1:], j.Dirs[at:])
+		j.Dirs[at] = d
+	}
+	for np := Pick(r, []int{1, 1, 2, 3}); np > 0; np-- {
+		pr := Pick(r, cands)
+		if pr.a == pr.b {
+			continue
+		}
+		// the pool of either direction
+		fw := []string{Pick(r, rates)}
+		if r.Chance(2, 3) {
+			fw = append(fw, Pick(r, rates))
+		}
+		var bw []string
+		for _, p := range fw {
+			if q, ok := recip[p]; ok && r.Chance(1, 3) {
+				bw = append(bw, q) // the exact reciprocal: the table does not change
+			} else {
+				bw = append(bw, Pick(r, rates))
+			}
+		}
+		if r.Chance(1, 3) {
+			bw = bw[:1]
+		}
+		day := Pick(r, days)
+		for n := r.Range(3, 9); n > 0; n-- {
+			switch r.Intn(4) {
+			case 0: // the same day again
+				tags = append(tags, "quote-same-day")
+			case 1:
+				day = lo + r.Intn(hi-lo+4)
+			default:
+				day = Pick(r, days)
+			}
+			d := JDir{Kind: 'p', Date: day, Com: pr.a, Target: pr.b, Price: Pick(r, fw)}
+			if r.Chance(2, 5) {
+				d = JDir{Kind: 'p', Date: day, Com: pr.b, Target: pr.a, Price: Pick(r, bw)}
+			}
+			if r.Chance(1, 8) {
+				if !strings.Contains(d.Price, ".") {
+					d.Price += "."
+				}
+				d.Price += Pick(r, []string{"0", "00"})
+			}
+			insert(d)
+		}
+		tags = append(tags, "quote-history")
+		if pr.a != val && pr.b != val {
+			tags = append(tags, "quote-history-chain-link")
+		}
+	}
+	// what the history contains (coverage tags): a value repeated in one direction with the other direction quoted in between
+	type dk struct{ a, b string }
+	last := map[dk]string{}
+	touched := map[dk]bool{}
+	for _, d := range j.Dirs {
+		if d.Kind != 'p' {
+			continue
+		}
+		k, inv := dk{d.Com, d.Target}, dk{d.Target, d.Com}
+		if p, ok := last[k]; ok && c03SameNumber(p, d.Price) {
+			if touched[k] {
+				tags = append(tags, "quote-repeated-across-inverse")
+			} else {
+				tags = append(tags, "quote-repeated")
+			}
+		}
+		last[k] = d.Price
+		touched[k] = false
+		if _, ok := last[inv]; ok {
+			touched[inv] = true
+		}
+	}
+	return tags
+}
+
+func c03SameNumber(a, b string) bool {
+	x, ok1 := new(big.Rat).SetString(a)
+	y, ok2 := new(big.Rat).SetString(b)
+	return ok1 && ok2 && x.Cmp(y) == 0
+}
+
+// c03GenBalCases is genBalCasesWith plus the quote histories of c03Requote on a third of the journals (drawn from a
+// generator of their own, so that the other cases of the stream stay what they were) and, for half of those, report
+// columns on many dates up to the end of the history (the valuation dates after each quote).
+func c03GenBalCases(c *Ctx, stream string, n int, jo func(r *RNG) JGenOpts, fo func(r *RNG, j *Journal, val string) BalFlags) []*balCase {
+	dir := filepath.Join(c.WorkDir, stream)
+	os.MkdirAll(dir, 0o755)
+	var cases []*balCase
+	for i := 0; i < n; i++ {
+		if !c.Want(stream, i) {
+			continue
+		}
+		r := c.Rng(stream, i)
+		o := jo(r)
+		j, tags := GenJournal(r, o)
+		rq := c.Rng(stream+"+quotes", i)
+		requoted := rq.Chance(1, 3)
+		if requoted {
+			tags = append(tags, c03Requote(rq, j, o.Valuation)...)
+		}
+		text, _ := j.Text()
+		f := fo(r, j, o.Valuation)
+		if requoted {
+			c03QuoteColumns(rq, j, &f)
+		}
+		cases = append(cases, &balCase{Idx: i, J: j, Text: text, F: f, Tags: tags})
+	}
+	parallelFor(len(cases), 16, func(k int) {
+		bc := cases[k]
+		path := filepath.Join(dir, fmt.Sprintf("c%d.knut", bc.Idx))
+		os.WriteFile(path, []byte(bc.Text), 0o644)
+		args := append([]string{"balance"}, bc.F.Args()...)
+		args = append(args, path)
+		bc.Code, bc.Stdout, bc.Stderr = runKnut(c.KnutBin, 20*time.Second, nil, args...)
+		os.Remove(path)
+	})
+	return cases
+}
+
+// c03QuoteColumns: for half of the journals with a quote history, columns on many dates (daily or weekly) up to the end
+// of the history or a few days beyond it.
+func c03QuoteColumns(rq *RNG, j *Journal, f *BalFlags) {
+	if !rq.Chance(1, 2) {
+		return
+	}
+	hi := 0
+	for _, d := range j.Dirs {
+		if d.Date > hi {
+			hi = d.Date
+		}
+	}
+	f.Interval = Pick(rq, []int{1, 1, 2})
+	if hi > 0 && rq.Chance(2, 3) && f.From <= hi {
+		f.To = hi + rq.Range(0, 10)
+	}
 }
